@@ -1,6 +1,7 @@
 // C15 target 2: dbd_gA::initialize on arbitrary table files (first byte selects p.d.f. / c.d.f. file).
 #include <cmath>
 #include <cstring>
+#include <fstream>
 #include <sstream>
 #include <string>
 #include <vector>
@@ -189,6 +190,76 @@ extern "C" int LLVMFuzzerTestOneInput(const uint8_t * data, size_t size)
     }
   } catch (verif::tape_exhausted &) {
   } catch (std::exception &) {
+  }
+  // ---- a refused table must leave nothing behind: the SAME object, after the refusal and without reset(), is given a small valid table
+  //      and must then be what a new object loading that table is (same description, same pairs for the same deviates)
+  {
+    static const std::string valid_cdf = "3.0\nCumulativeProbability 0.5 1.5 0.5 3\n^0 3 7 !1\n^0 3 7 !1\n^0 5 !1\n!1\n";
+    static const std::string valid_pdf = [] {
+      std::string v;
+      const char * rd = getenv("BXDECAY0_RESOURCE_DIR");
+      if (rd != nullptr) {
+        std::ifstream f(std::string(rd) + "/data/dbd_gA/Test/g0/tab_pdf.data");
+        std::stringstream ss;
+        ss << f.rdbuf();
+        v = ss.str();
+      }
+      return v;
+    }();
+    const std::string & valid = pdf ? valid_pdf : valid_cdf;
+    const std::string path = base + "/data/dbd_gA/v1.0/Test/g0/" + (pdf ? "tab_pdf.data" : "tab_ocdf.data");
+    if (!valid.empty()) {
+      bxdecay0::dbd_gA g;
+      bool refused = false;
+      try {
+        g.set_nuclide("Test");
+        g.set_process(bxdecay0::dbd_gA::PROCESS_G0);
+        g.set_shooting(pdf ? bxdecay0::dbd_gA::SHOOTING_REJECTION : bxdecay0::dbd_gA::SHOOTING_INVERSE_TRANSFORM_METHOD);
+        g.initialize();
+      } catch (std::exception &) {
+        refused = true;
+      }
+      if (refused && !g.is_initialized()) {
+        fz_write(path, (const uint8_t *)valid.data(), valid.size());
+        bxdecay0::dbd_gA f;
+        std::string dg, df;
+        bool okg = true, okf = true;
+        try {
+          g.initialize();
+        } catch (std::exception & x) {
+          okg = false;
+          dg = x.what();
+        }
+        try {
+          f.set_nuclide("Test");
+          f.set_process(bxdecay0::dbd_gA::PROCESS_G0);
+          f.set_shooting(pdf ? bxdecay0::dbd_gA::SHOOTING_REJECTION : bxdecay0::dbd_gA::SHOOTING_INVERSE_TRANSFORM_METHOD);
+          f.initialize();
+        } catch (std::exception & x) {
+          okf = false;
+          df = x.what();
+        }
+        if (okf && !okg) FZ_VIOLATION("after a refused table, the same object refuses a valid table that a new object loads");
+        if (okf && okg) {
+          std::ostringstream a, b;
+          g.print(a, "", "");
+          f.print(b, "", "");
+          if (a.str() != b.str()) FZ_VIOLATION("after a refused table, the same object loading a valid table describes itself differently from a new object (left-overs of the refused table)");
+          for (int i = 0; i < 24; i++) {
+            verif::Tape ta(7, 1000 + i), tb(7, 1000 + i);
+            ta.cap = tb.cap = 200000;
+            double a1 = -1, a2 = -1, b1 = -1, b2 = -1;
+            try {
+              g.shoot_e1_e2(ta, a1, a2);
+              f.shoot_e1_e2(tb, b1, b2);
+            } catch (verif::tape_exhausted &) {
+              break;
+            }
+            if (a1 != b1 || a2 != b2 || ta.pos != tb.pos) FZ_VIOLATION("after a refused table, the same object loading a valid table samples other pairs than a new object");
+          }
+        }
+      }
+    }
   }
   return 0;
 }
